@@ -4,6 +4,7 @@ import (
 	"fmt"
 	"os"
 	"os/exec"
+	"regexp"
 	"path/filepath"
 	"strconv"
 	"strings"
@@ -566,14 +567,157 @@ func c09RandomSave(rng *Rng) c09SaveCase {
 	return c
 }
 
+// ---- whole runs: pkglint -F on a generated package Makefile ----
+
+var c09AutofixRe = regexp.MustCompile(`(?m)^AUTOFIX: cat/pkg/Makefile:(\d+)(?:--(\d+))?: `)
+
+const c09MakefileHead = "# $NetBSD$\n\nDISTNAME=\tpkg-1.0\nCATEGORIES=\tcat\nMASTER_SITES=\t# none\n\nMAINTAINER=\tpkgsrc-users@NetBSD.org\nHOMEPAGE=\t# none\nCOMMENT=\tDummy package\nLICENSE=\t2-clause-bsd\n\n"
+
+// c09RandomMakefile: the fixture's Makefile with extra paragraphs: continuation
+// lines of all shapes (left alone by pkglint), and lines pkglint likes to fix.
+func c09RandomMakefile(rng *Rng) string {
+	var sb strings.Builder
+	sb.WriteString(c09MakefileHead)
+	n := 1 + rng.Intn(5)
+	for i := 0; i < n; i++ {
+		switch rng.Intn(7) {
+		case 0:
+			sb.WriteString("CONFIGURE_ARGS+=\t--first \\\n\t\t--second \\\n\t\t--third\n")
+		case 1:
+			sb.WriteString("# a comment \\\n# continued \\\n\t#and more\n")
+		case 2:
+			sb.WriteString("CFLAGS+= -O2\n") // misaligned: varalign fixes it
+		case 3:
+			sb.WriteString("USE_TOOLS+=\tgmake  \\\n  \t  perl \\\n\n")
+		case 4:
+			sb.WriteString("BUILD_DEFS+=\tVARBASE \\\\\n")
+		case 5:
+			sb.WriteString("SUBST_CLASSES+=\tfix\nSUBST_STAGE.fix=\tpre-configure\nSUBST_FILES.fix=\t*.c\nSUBST_SED.fix=\t-e s,a,b,\n")
+		default:
+			sb.WriteString("#" + c09RandomText(rng, 30) + "\n")
+		}
+		if rng.Chance(60) {
+			sb.WriteString("\n")
+		}
+	}
+	sb.WriteString(".include \"../../mk/bsd.pkg.mk\"")
+	if !rng.Chance(15) {
+		sb.WriteString("\n")
+	} else if rng.Chance(50) {
+		sb.WriteString(" \\")
+	}
+	return sb.String()
+}
+
+func c09WholeRuns(ctx *Ctx, res *Result, rng *Rng, n int) {
+	root := filepath.Join(ctx.Work, "c09tree")
+	if err := c18WriteTree(root); err != nil {
+		res.Broken = err.Error()
+		return
+	}
+	if out, exit, err := c18RunPkglint(ctx, root, "cat/pkg"); err != nil || exit != 0 || !strings.Contains(out, "Looks fine.") {
+		res.AddViolation(Violation{Key: "C09/fixture", What: "the base fixture no longer passes pkglint: " + out, FoundInput: false,
+			Replay: map[string]any{"broken": "whole-run fixture (DESIGN.md Appendix A)", "output": q(out)}})
+		return
+	}
+	path := filepath.Join(root, "cat/pkg/Makefile")
+	for i := 0; i < n; i++ {
+		old := c09RandomMakefile(rng)
+		c09WholeRun(ctx, res, root, path, old)
+		if res.Broken != "" {
+			return
+		}
+	}
+}
+
+func c09WholeRun(ctx *Ctx, res *Result, root, path, old string) {
+	if err := os.WriteFile(path, []byte(old), 0o644); err != nil {
+		res.Broken = err.Error()
+		return
+	}
+	out, exit, err := c18RunPkglint(ctx, root, "-F", "cat/pkg")
+	if err != nil || exit < 0 || exit > 1 {
+		res.Count("w.run_failed", 1)
+		return
+	}
+	nb, err := os.ReadFile(path)
+	if err != nil {
+		res.Broken = err.Error()
+		return
+	}
+	now := string(nb)
+	rep := map[string]any{"kind": "wholerun", "makefile": hx(old), "after": hx(now), "output": q(out)}
+	fixes := c09AutofixRe.FindAllStringSubmatch(out, -1)
+	if len(fixes) == 0 {
+		res.Count("w.noop_runs", 1)
+		if now != old {
+			res.AddViolation(Violation{Key: "C09/whole-run/no-op-save-changed-file",
+				What:       fmt.Sprintf("pkglint -F logged no AUTOFIX for the Makefile but the file changed: %q -> %q", old, now),
+				FoundInput: true, Size: len(old), Replay: rep})
+		}
+		res.Evaluations++
+		res.TracesValidated++
+		return
+	}
+	res.Count("w.partial_runs", 1)
+	touched := map[int]bool{} // physical line numbers named in the AUTOFIX log
+	for _, g := range fixes {
+		a, _ := strconv.Atoi(g[1])
+		b := a
+		if g[2] != "" {
+			b, _ = strconv.Atoi(g[2])
+		}
+		for k := a; k <= b; k++ {
+			touched[k] = true
+		}
+	}
+	lines, _, panicked := pkglint.VerifConvertToLogicalLines(old, true)
+	if panicked != "" {
+		return // reported by the unit layer
+	}
+	// the physical lines of every logical line none of whose physical lines was named
+	var untouched []string
+	for _, l := range lines {
+		hit := false
+		for k := range l.Raws {
+			if touched[l.Lineno+k] {
+				hit = true
+			}
+		}
+		if !hit {
+			untouched = append(untouched, l.Raws...)
+			if len(l.Raws) > 1 {
+				res.Count("w.untouched_multi_raw_lines", 1)
+			}
+		}
+	}
+	// they must occur in the new file, in order, byte for byte
+	newRaws := strings.SplitAfter(now, "\n")
+	j := 0
+	for _, u := range untouched {
+		for j < len(newRaws) && newRaws[j] != u {
+			j++
+		}
+		if j == len(newRaws) {
+			res.AddViolation(Violation{Key: "C09/whole-run/untouched-line-not-reproduced",
+				What:       fmt.Sprintf("pkglint -F: the physical line %q, not named in any AUTOFIX line, is not reproduced (in order) in the saved Makefile %q", u, now),
+				FoundInput: true, Size: len(old), Replay: rep})
+			break
+		}
+		j++
+	}
+	res.Evaluations++
+	res.TracesValidated++
+}
+
 // ---- entry points ----
 
 func runC09(ctx *Ctx) *Result {
-	res := &Result{Rule: "cases = (byte string, mode); exhaustive: every string of length <= L over {backslash, LF, CR, space, tab, #, a} in makefile and plain mode, then seeded random strings up to 200 bytes (property alphabet / line-structured makefile text / arbitrary bytes incl. NUL and non-ASCII), with and without final newline; non-trivial = makefile mode: some logical line has >= 2 physical lines, or ends in an even backslash run, or a continuation meets EOF; plain mode: >= 2 lines or no final newline; distinct by (string, mode). Save scripts: random text <= 80 bytes with 0-3 Autofix operations on random lines."}
+	res := &Result{Rule: "cases = (byte string, mode); exhaustive: every string of length <= L over {backslash, LF, CR, space, tab, #, a} in makefile and plain mode, then seeded random strings up to 200 bytes (property alphabet / line-structured makefile text / arbitrary bytes incl. NUL and non-ASCII), with and without final newline; non-trivial = makefile mode: some logical line has >= 2 physical lines, or ends in an even backslash run, or a continuation meets EOF; plain mode: >= 2 lines or no final newline; distinct by (string, mode). Save scripts: random text <= 80 bytes with 0-3 Autofix operations on random lines. Whole runs: pkglint -F (real binary) on the fixture package with a generated Makefile; physical lines of logical lines not named in the AUTOFIX log must be reproduced in order, a run without AUTOFIX must leave the file alone."}
 	rng := NewRng(ctx.Seed)
-	maxLen, nrand, nsave := 7, 30000, 5000
+	maxLen, nrand, nsave, nwhole := 7, 30000, 5000, 80
 	if ctx.Tier == "thorough" {
-		maxLen, nrand, nsave = 8, 1000000, 100000
+		maxLen, nrand, nsave, nwhole = 8, 1000000, 100000, 2000
 	}
 	nexh, getExh := c09Exhaustive(maxLen)
 	c09RunGen(ctx, res, nexh, getExh, "exhaustive", nil)
@@ -612,6 +756,10 @@ func runC09(ctx *Ctx) *Result {
 		saves = append(saves, c09RandomSave(rng))
 	}
 	c09RunSave(ctx, res, saves)
+	if res.Broken != "" {
+		return res
+	}
+	c09WholeRuns(ctx, res, rng, nwhole)
 	res.Exhaustive = false
 	res.Count("exhaustive_max_len", maxLen)
 
@@ -622,6 +770,7 @@ func runC09(ctx *Ctx) *Result {
 		"mk.continuation_at_eof": 100, "mk.backslash_cr": 100, "mk.no_final_newline": 1000,
 		"plain.no_final_newline": 1000, "plain.crlf": 100,
 		"save.nothing_modified": 50, "save.partial": 200, "save.all_lines_modified": 20,
+		"w.noop_runs": 3, "w.partial_runs": 20, "w.untouched_multi_raw_lines": 20,
 	}
 	for _, k := range sortedKeys(floors) {
 		if n, _ := res.Distribution[k].(int); n < floors[k] && res.Broken == "" {
@@ -642,6 +791,14 @@ func replayC09(ctx *Ctx, rep map[string]any) *Result {
 	switch rep["kind"] {
 	case "conv":
 		c09Run(ctx, res, []c09Case{{unhx(input), mk}}, "replay", nil)
+	case "wholerun":
+		mf, _ := rep["makefile"].(string)
+		root := filepath.Join(ctx.Work, "c09tree")
+		if err := c18WriteTree(root); err != nil {
+			res.Broken = err.Error()
+			return res
+		}
+		c09WholeRun(ctx, res, root, filepath.Join(root, "cat/pkg/Makefile"), unhx(mf))
 	case "save":
 		c := c09SaveCase{input: unhx(input), mk: mk}
 		if ops, ok := rep["ops"].([]any); ok {
